@@ -56,7 +56,9 @@ Check(m, e) ==
     [] e.a = "dec" ->
          IF m.exited THEN "thread_ended_means_ended"
          ELSE IF e.site = "top" /\ m.cause # "none" /\ m.steps + 1 > m.K THEN "ends_in_bounded_steps"
-         ELSE IF e.site = "top" /\ e.prod = m.lastProd /\ m.idle >= 1 THEN "never_busy_spins"
+         \* (back at the top of its loop with nothing pushed since, twice in a row, and - where the wall clock was recorded -
+         \*  in under a millisecond: it did not sleep in between)
+         ELSE IF e.site = "top" /\ e.prod = m.lastProd /\ m.idle >= 1 /\ ("ms" \notin DOMAIN e \/ e.ms < 1) THEN "never_busy_spins"
          \* "within bounded time": a thread with nothing to do sleeps for a millisecond, not for ever longer - it must be back
          \* at the top of its loop well within a second of being let go (the margin is for a loaded machine)
          ELSE IF "ms" \in DOMAIN e /\ e.ms > 700 THEN "idle_thread_wakes_up_in_bounded_time"
@@ -86,9 +88,12 @@ Upd(m, e) ==
   CASE e.a = "play" -> [m EXCEPT !.created = e.ok, !.played = TRUE]
     [] e.a = "dec" ->
          LET m1 == IF e.site = "err" THEN Cause([m EXCEPT !.failed = TRUE], "failed")
-                   ELSE IF e.site = "end" THEN Cause(m, "finished") ELSE m IN
+                   \* (running out of audio to decode is not yet a reason to end: the sound "has finished" when it reports Stopped -
+                   \*  until then a seek may still bring it back; a thread that does leave at this point is fine too)
+                   ELSE m IN
          [m1 EXCEPT !.steps = IF e.site = "top" /\ m1.cause # "none" THEN @ + 1 ELSE @,
-                    !.idle = IF e.site = "top" THEN (IF e.prod = m.lastProd THEN @ + 1 ELSE 1) ELSE 0,
+                    \* (counted up to 2 only: a thread may idle for ever - paused stream, audio run out but sound not finished)
+                    !.idle = IF e.site = "top" THEN (IF e.prod = m.lastProd THEN (IF @ >= 2 THEN 2 ELSE @ + 1) ELSE 1) ELSE 0,
                     !.lastProd = e.prod]
     [] e.a = "exit" -> [m EXCEPT !.exited = TRUE]
     [] e.a \in {"reject", "discard"} -> [Cause(m, e.a) EXCEPT !.gone = TRUE]
